@@ -238,6 +238,27 @@ func (fw *FileWrapV2) WriteSlice(slotIdx int, endSlotIdx int, offset int64, dat 
 	return errors.Wrapf(err, "seek unreachable file:%s", fw.Name())
 }
 
+// ZeroSlots overwrites the slot records [slotIdx, endSlotIdx) with zero bytes: one positioned write without the length
+// prefix that WriteSlice adds, so nothing outside the range is touched and no half-cleared slot can be left behind.
+// Everything cached for these slots is dropped.
+func (fw *FileWrapV2) ZeroSlots(slotIdx int, endSlotIdx int) error {
+	if endSlotIdx <= slotIdx {
+		return nil
+	}
+	fw.mu.Lock()
+	defer fw.mu.Unlock()
+	if _, err := fw.fd.Seek(int64(slotIdx*entrySize), 0); err != nil {
+		return errors.Wrapf(err, "seek unreachable file:%s", fw.Name())
+	}
+	if _, err := fw.fd.Write(make([]byte, (endSlotIdx-slotIdx)*entrySize)); err != nil {
+		return errors.Wrapf(err, "write failed for file:%s", fw.Name())
+	}
+	for i := slotIdx; i < endSlotIdx && i < len(fw.cache); i++ {
+		fw.cache[i] = fileSlotCache{}
+	}
+	return nil
+}
+
 func (fw *FileWrapV2) ReadSlice(slotIdx int, offset int64, isMeta bool) []byte {
 	fw.mu.Lock()
 	defer fw.mu.Unlock()
